@@ -23,7 +23,7 @@ func editWorld(t *rapid.T, w *World) *World {
 	n := rapid.IntRange(1, 4).Draw(t, "nedits")
 	for e := 0; e < n; e++ {
 		l := fmt.Sprintf("ed%d", e)
-		switch rapid.IntRange(0, 8).Draw(t, l+"kind") {
+		switch rapid.IntRange(0, 10).Draw(t, l+"kind") {
 		case 0: // remove a policy
 			if len(b.NPs) > 0 {
 				k := rapid.IntRange(0, len(b.NPs)-1).Draw(t, l+"k")
@@ -86,6 +86,24 @@ func editWorld(t *rapid.T, w *World) *World {
 		case 7: // change a workload's kind (the peer string changes: removed + added)
 			k := rapid.IntRange(0, len(b.Workloads)-1).Draw(t, l+"k")
 			b.Workloads[k].Kind = rapid.SampledFrom(allKinds).Draw(t, l+"newkind")
+		case 9, 10: // move an ipBlock to another CIDR keeping its ports (one range loses exactly what another gains)
+			var blocks []*IPBlock
+			for i := range b.NPs {
+				for _, rs := range [][]Rule{b.NPs[i].Ingress, b.NPs[i].Egress} {
+					for ri := range rs {
+						for pi := range rs[ri].Peers {
+							if ib := rs[ri].Peers[pi].IPBlock; ib != nil {
+								blocks = append(blocks, ib)
+							}
+						}
+					}
+				}
+			}
+			if len(blocks) > 0 {
+				ib := blocks[rapid.IntRange(0, len(blocks)-1).Draw(t, l+"blk")]
+				ib.CIDR = rapid.SampledFrom([]string{"11.0.0.0/8", "10.0.0.0/8", "10.1.0.0/16", "10.2.0.0/16", "172.16.0.0/12", "192.168.0.0/16", "10.1.2.3/32", "10.1.2.4/32"}).Draw(t, l+"newcidr")
+				ib.Except = nil
+			}
 		case 8: // change except list of an ipBlock
 			for i := range b.NPs {
 				for _, rs := range [][]Rule{b.NPs[i].Ingress, b.NPs[i].Egress} {
